@@ -57,7 +57,12 @@ def expected_result(ex):
         d = z3.If(ex.b(ex.truth(o["ellipses"])),
                   U(ex, "eff_CONTENT", Ref, d, "fn!flowmark.typography.ellipses.ellipses", True), d)
         rendered = ex.wrap(U(ex, "obs_RENDER", "str", marko, d), "str")
-        want = ex.ite(has_fm, ex.concat([fm, rendered]), rendered)
+        # C07: frontmatter re-attached verbatim; a document that is nothing but frontmatter (unclosed `---`)
+        # is returned unchanged apart from a final newline
+        ex.envs = ex.old_envs + [{"fm": fm, "content": content}]
+        only_fm = ex.b(ex.truth(sv("fm != '' and strip(content) == ''")))
+        fm_nl = sv("ite(endswith(fm, '\\n'), fm, fm + '\\n')")
+        want = ex.ite(has_fm, ex.ite(only_fm, fm_nl, ex.concat([fm, rendered])), rendered)
     finally:
         ex.envs = saved
     return ex.eq(e["result"], want)
